@@ -14,6 +14,9 @@ def sh(cmd, **kw):
 
 args = sys.argv[1:]
 tier, seed = 'quick', None
+fresh = False
+if '--fresh' in args:   # forget earlier results recorded in meta.json: what this run finds is the record
+    args.remove('--fresh'); fresh = True
 if '--tier' in args:
     i = args.index('--tier'); tier = args[i + 1]; del args[i:i + 2]
 if '--seed' in args:
@@ -51,6 +54,8 @@ try:
             print(out[-1500:])
     if meta is not None:
         meta = json.load(open(mp))
+        if fresh:
+            meta['runs'] = {}; meta['detected_by'] = []
         meta.setdefault('runs', {}).update({'%s:%s' % (p, tier): v for p, v in res.items()})
         meta['detected_by'] = sorted(set(meta.get('detected_by', [])) | {('%s(%s)' % (p, tier)) for p, v in res.items() if v['exit'] == 1})
         json.dump(meta, open(mp, 'w'), indent=1)
